@@ -179,6 +179,8 @@ def gen_profile(rng, i):
         if flags:
             s += " flags=(" + sep.join(flags) + ")"
         s += ("{" if glue and flags else " {")
+        if rng.random() < 0.12:
+            s += rng.choice(["  # a note on the header line", " # {", "  ", "\t# tab before the note"])       # a header line may end in a comment or blanks
         return s
 
     mainf = rng.choice(FLAGSETS)
@@ -246,8 +248,19 @@ def generated(ctx, agg):
                                   "generated profile, block %s: source flags %s, after the %s builder %s (header %r -> %r)" % (
                                       qn, fs, mode, fo, rests, resto), {"text": text, "mode": mode, "out": rep["ok"]})
             # non-header lines untouched
-            a = [l for l in text.split("\n") if not l.rstrip().endswith("{") or l.strip().startswith("#")]
-            b = [l for l in rep["ok"].split("\n") if not l.rstrip().endswith("{") or l.strip().startswith("#")]
+            def non_headers(t):
+                # header line = code part (comment stripped) ends with '{' and reads as a block header; its trailing comment is
+                # kept as a pseudo-line of its own: it must not change either
+                out = []
+                for l in t.split("\n"):
+                    code, com = scan.strip_comment(l)
+                    if code.rstrip().endswith("{") and scan.parse_header(code) is not None and not l.strip().startswith("#"):
+                        out.append("<header> " + com)
+                    else:
+                        out.append(l)
+                return out
+
+            a, b = non_headers(text), non_headers(rep["ok"])
             if a != b:
                 ctx.violation("C05/generated/non-header-line-changed/" + mode, "a line that is not a block header changed under the %s builder" % mode,
                               {"text": text, "mode": mode, "out": rep["ok"]})
